@@ -12,19 +12,7 @@
 #include "internal/utils.h"
 #include "common.h"
 #include "sqlite_model.h"
-#define OLD(x) __CPROVER_old(x)
-#define RET __CPROVER_return_value
-
-/* C05 in terms of the model: a failed call has undone every write it stepped and nothing else - the enclosing transaction (if any) is still open with exactly
- * the writes it had, nothing became durable, the savepoints that were open are still there with their marks (a call may leave a no-op savepoint of its own on
- * top after ROLLBACK TO; it vanishes with the enclosing transaction).  Void only if SQLite itself refused a ROLLBACK / ROLLBACK TO (I/O failure). */
-#define SQL_UNCHANGED_BY_FAILED_CALL (g_undo_failed || (g_durable_writes == OLD(g_durable_writes) && g_tx_open == OLD(g_tx_open) && g_tx_writes == OLD(g_tx_writes) \
-    && g_lost_writes - OLD(g_lost_writes) == g_write_steps - OLD(g_write_steps) && g_sp_depth >= OLD(g_sp_depth) \
-    && (OLD(g_sp_depth) < 1 || g_sp_mark[0] == OLD(g_sp_mark[0])) && (OLD(g_sp_depth) < 2 || g_sp_mark[1] == OLD(g_sp_mark[1]))))
-/* a successful call inside a transaction leaves the bracket structure as it found it and loses nothing */
-#define SQL_NESTED_SUCCESS (g_tx_open == OLD(g_tx_open) && g_sp_depth == OLD(g_sp_depth) && g_lost_writes == OLD(g_lost_writes) && g_durable_writes == OLD(g_durable_writes) \
-    && g_tx_writes - OLD(g_tx_writes) == g_write_steps - OLD(g_write_steps))
-#define SQL_ENTRY (SQL_WF && g_sp_depth <= 2 && !g_undo_failed && g_tx_writes < 1000 && g_write_steps < 1000 && g_lost_writes < 1000 && g_durable_writes < 1000)
+#include "sql_preds.h"
 
 int g_cat_kind;      /* ghost input: what cif_loop_get_category reports: 0 = error, 1 = scalar loop (""), 2 = other, 3 = NULL category */
 #define ITER_OK(it) (__CPROVER_rw_ok(it, sizeof(*(it))) && (it)->loop != NULL && __CPROVER_r_ok((it)->loop, sizeof(cif_loop_tp)) && (it)->loop->container != NULL \
